@@ -471,9 +471,6 @@ func (f *Func) reachTarget(
 				// Do nothing
 
 			case *valueVertex:
-				// Store the last viewed vertex in our path state
-				state.Value = v.Value
-
 				if pathIdx > 0 {
 					prev := path[pathIdx-1]
 					if r, ok := prev.(*typedOutputVertex); ok {
@@ -481,6 +478,11 @@ func (f *Func) reachTarget(
 						v.Value = r.Value
 					}
 				}
+
+				// Store the last viewed vertex in our path state. This must
+				// happen after the value is inherited from the previous
+				// vertex so a following typed argument sees it.
+				state.Value = v.Value
 
 				// If we have a valid value set, then put it on our named list.
 				if v.Value.IsValid() {
